@@ -31,6 +31,7 @@ from runner import Exploration, Finding
 SPEC = {
     "prop": "C10",
     "lean_targets": ["InfernoVerif.Props.C10", "InfernoVerif.Drv.Proto"],
+    "driver_targets": ["InfernoVerif.Model.Updater", "InfernoVerif.Drv.Proto"],
     "prop_files": ["InfernoVerif/Props/C10.lean"],
     "lemma_files": ["InfernoVerif/Lemmas/Updater.lean"],
     "model_files": ["InfernoVerif/Model/Updater.lean"],
